@@ -1,6 +1,19 @@
-"""C12 — results do not depend on the textual order of statements.   (BOUNDED stand-in, not a proof)
+"""C12 — results do not depend on the textual order of statements.
 
-Contracts, stated on the real functions and checked on an exhaustive bounded enumeration of scripts (hand-built
+TIER 1 (deductive, checks/_dagproof.py - proof obligations, scripts of ANY size): contracts with loop invariants on the
+real functions of AST/DAG/__init__.py.  Every loop of visit_Start (statement numbering / per-statement reset),
+load_vertex, load_edges, check_overwriting is verified by ONE iteration of its real body executed symbolically
+(vc.pyvc + SMT arrays for dicts / sets / lists, vc.pycoll / vc.pyloop) from an ARBITRARY loop state, with pointwise
+invariants and ghost values, discharged by z3 / cvc5; _build_and_sort_graph, sort_elements, sort_ast, create_dag,
+visit_(Persistent)Assignment, statement_structure are executed whole (networkx under assumed contracts); the state shared
+between the visits of two statements is discharged by a frame analysis (constant / reset per statement / balanced flag).
+The modular obligation "load_edges needs one producer per name" FAILS at its call site in create_dag (check_overwriting
+runs after the graph is built): replayed natively - the same statements are rejected with 1-3-2-3 or 1-2-2 depending
+on their order - and listed as a known finding.  Induction over the loops and the confluence lemma are stated
+meta-arguments.  A refuted / unformable obligation is decided by a native search on hand-built ASTs
+(checks/_dagnative.py): only a reproduced failure is a violation.
+
+TIER 2 (BOUNDED, unchanged): contracts, stated on the real functions and checked on an exhaustive bounded enumeration of scripts (hand-built
 ASTs; the dependency graph of each script is known by construction, independently of the analyzer under test):
 
   DAGAnalyzer.create_dag(ast)    ensures  (no duplicate output, acyclic)  => ast.children is a permutation of the
@@ -92,10 +105,16 @@ def show(stmts: Sequence[G.Stmt]) -> str:
 
 
 def main() -> None:  # noqa: C901
-    chk = Check("C12", "exploration", "contracts on DAGAnalyzer.create_dag / API.semantic_analysis / API.run checked on "
+    chk = Check("C12", "proof", "contracts with loop invariants on the real functions of AST/DAG/__init__.py: one iteration of "
+                "every real loop body from an arbitrary loop state (vc.pyvc, SMT arrays for dicts / sets / lists), whole-"
+                "function symbolic execution of the straight-line phases, networkx under assumed contracts, frame analysis of "
+                "the state shared between statements, z3 / cvc5; native replay on hand-built ASTs; PLUS the bounded tier: "
+                "contracts on DAGAnalyzer.create_dag / API.semantic_analysis / API.run checked on "
                 "an exhaustive bounded enumeration of scripts x all statement permutations, executed on the real code "
-                "(API functions mechanically extracted below the parser)", min_obligations=4)
+                "(API functions mechanically extracted below the parser)", min_obligations=30)
     core.boot(full=True)
+    import _dagproof
+    _dagproof.run(chk)                     # tier 1: proof obligations (never `bounded`)
     rng = random.Random(chk.seed)
     thorough = chk.tier == "thorough"
     plans = [(2, 2, False, 0), (3, 2, False, 0), (2, 1, True, 0), (3, 1, True, 0),
@@ -216,8 +235,15 @@ def main() -> None:  # noqa: C901
                         "least 2 statements with a dependency or conflict"
     chk.extra["extraction_drops"] = P.EXTRACTION_DROPS
     chk.samples = sorted(distinct)[:3] + [v[1] for v in fails.values()][:3]
-    chk.assume("BOUNDED: nothing is proved for scripts beyond the enumerated shapes (statements are assignments of "
-               "sums / filter clauses / scalar constants; no UDOs, rulesets, joins)")
+    chk.assume("BOUNDED tier (the six create_dag / semantic_analysis / run obligations marked bounded): nothing is shown "
+               "by it for scripts beyond the enumerated shapes (statements are assignments of "
+               "sums / filter clauses / scalar constants; no UDOs, rulesets, joins).  It is the only tier that exercises "
+               "semantic_analysis() / run() end to end, the unknown-variable promotion of visit_Start and WHICH names the "
+               "collectors extract from an expression")
+    chk.notes.append("scripts that are BOTH redefining and cyclic under one choice of the producer are excluded from the "
+                     "bounded redefinition family on purpose (the property does not say which of the two errors they must "
+                     "get); that their error DEPENDS ON THE WRITTEN ORDER is reported by the deductive obligation "
+                     "create_dag::load_edges-precondition-unique-producers (known finding), consistently with that exclusion")
     chk.assume("text->AST is not exercised (parser absent); ASTs are hand-built the way ASTConstructor builds them")
     chk.finish()
 
